@@ -46,10 +46,35 @@ impl UvMapping {
     ///
     /// returns: Option<(usize, [f64; 3])>
     pub fn triangle(&self, point: &Point2) -> Option<(usize, [f64; 3])> {
+        // The triangles of the map are solid: a point inside one of them must stay where it is
+        // instead of being moved to the nearest edge
         let result = self
             .tri_map
-            .project_local_point_and_get_location(point, false);
+            .project_local_point_and_get_location(point, true);
         let (_, (t_id, loc)) = result;
-        Some((t_id as usize, loc.barycentric_coordinates().unwrap()))
+        let bc = match loc.barycentric_coordinates() {
+            Some(bc) => bc,
+            None => {
+                // A location in the interior of a 2D triangle carries no barycentric coordinates
+                let tri = self.tri_map.triangle(t_id);
+                interior_barycentric(&tri.a, &tri.b, &tri.c, point)?
+            }
+        };
+        Some((t_id as usize, bc))
     }
+}
+
+/// Barycentric coordinates of `p` with respect to the 2D triangle `a`, `b`, `c`, or `None` if the
+/// triangle has no area.
+fn interior_barycentric(a: &Point2, b: &Point2, c: &Point2, p: &Point2) -> Option<[f64; 3]> {
+    let v0 = b - a;
+    let v1 = c - a;
+    let v2 = p - a;
+    let det = v0.x * v1.y - v1.x * v0.y;
+    if det == 0.0 {
+        return None;
+    }
+    let w1 = (v2.x * v1.y - v1.x * v2.y) / det;
+    let w2 = (v0.x * v2.y - v2.x * v0.y) / det;
+    Some([1.0 - w1 - w2, w1, w2])
 }
